@@ -58,13 +58,13 @@ OBLIGATIONS = [
     {"id": "C07_T5_http_server", "theorem": "Iora.C07.T5_http_server_flags", "kind": "proved",
      "statement": "HttpServer: requireClientCert => SSL_VERIFY_PEER | SSL_VERIFY_FAIL_IF_NO_PEER_CERT on the listener's context"},
     {"id": "C07_T6_client", "theorem": "Iora.C07.T6_client_matrix", "kind": "proved",
-     "statement": "forall H assumed, every one of the 5040 client cells (7 server-certificate kinds incl. CN=host with SAN=other host, and CN-only): announced <-> Spec.cliAdmissible, version >= 1.2, never plain"},
+     "statement": "forall H assumed, every one of the 6720 client cells (7 server-certificate kinds incl. CN=host with SAN=other host, and CN-only): announced <-> Spec.cliAdmissible, version >= 1.2, never plain"},
     {"id": "C07_T6_server", "theorem": "Iora.C07.T6_server_matrix", "kind": "proved",
-     "statement": "forall H assumed, every one of the 10080 server cells: admitted <-> Spec.srvAdmissible, version >= 1.2, never plain"},
+     "statement": "forall H assumed, every one of the 13440 server cells: admitted <-> Spec.srvAdmissible, version >= 1.2, never plain"},
     {"id": "C07_T6_http_refuted", "theorem": "Iora.C07.T6_http_refuted", "kind": "refuted", "finding": "F20-http",
      "statement": "NOT (HttpClient matrix: response returned <-> Spec.httpAdmissible in every cell): witness verify, caFile=issuing CA, cert for other.example, https://localhost"},
     {"id": "C07_T6_http_partial", "theorem": "Iora.C07.T6_http_partial", "kind": "partial",
-     "statement": "forall H assumed, every one of the 3024 HttpClient cells: outside the carve-out nameUnchecked the decision is exact; always version >= 1.2 and never plain"},
+     "statement": "forall H assumed, every one of the 4032 HttpClient cells: outside the carve-out nameUnchecked the decision is exact; always version >= 1.2 and never plain"},
     {"id": "C07_T6_only_if", "theorem": "Iora.C07.T6_client_only_if", "kind": "proved",
      "statement": "the property's 'only if' spelled out: announced with verification on => chain, validity, name (by-name), possession, >= TLS 1.2"},
     {"id": "C07_T7_silent", "theorem": "Iora.C07.T7_tls_session_never_clear", "kind": "proved",
@@ -81,11 +81,41 @@ OBLIGATIONS = [
      "statement": "forall configuration, request != None, event sequence: no application byte goes out in clear (plan + session machine)"},
     {"id": "C07_T8_listener", "theorem": "Iora.C07.T8_listener_tls_never_clear", "kind": "proved",
      "statement": "same for sessions accepted on a listener requested with TLS"},
+    {"id": "C07_T1_wrong_role_connect", "theorem": "Iora.C07.T1_wrong_role_connect_refused", "kind": "proved",
+     "statement": "forall configuration (server context, client context, both or none exist), files, target: connect(..., TlsMode::Server) is REFUSED (start or connect) - "
+                  "never plain, never TLS on the wrong context"},
+    {"id": "C07_T1_wrong_role_listen", "theorem": "Iora.C07.T1_wrong_role_listen_refused", "kind": "proved",
+     "statement": "forall configuration: addListener(..., TlsMode::Client) is REFUSED whichever contexts exist"},
+    {"id": "C07_T1_udp", "theorem": "Iora.C07.T1_udp_never_plain", "kind": "proved",
+     "statement": "UdpEngine::connect / addListener with a TLS mode are refused (no DTLS; never a clear datagram session instead)"},
+    {"id": "C07_T5_store", "theorem": "Iora.C07.T5_server_store_is_configured", "kind": "proved",
+     "statement": "the trust store is a SET that accumulates: for a verifyPeer server `default` (system roots) is NOT in it, so for every system store the "
+                  "verification store is exactly the configured CA"},
+    {"id": "C07_T7_recv", "theorem": "Iora.C07.T7_recv_only_through_ssl", "kind": "proved",
+     "statement": "forall event sequences incl. EPOLLIN with any pending bytes: a TLS session never hands raw ::recv bytes to onData, and delivers NOTHING before "
+                  "SSL_do_handshake returned 1 (readAvail guard + both call sites are Gen facts consumed by the machine)"},
+    {"id": "C07_T8_recv_connect", "theorem": "Iora.C07.T8_requested_tls_recv", "kind": "proved",
+     "statement": "plan + receive machine: forall configuration, request != None, event sequence: no raw delivery, nothing delivered before the handshake succeeded"},
+    {"id": "C07_T8_recv_listen", "theorem": "Iora.C07.T8_listener_tls_recv", "kind": "proved",
+     "statement": "same for sessions accepted on a listener requested with TLS"},
+    {"id": "C07_T10_init_failure", "theorem": "Iora.C07.T10_init_failure_recoverable", "kind": "proved",
+     "statement": "forall histories incl. FAILING initialisations: HttpClient never keeps a dead transport; while uninitialised every setTlsConfig is accepted"},
+    {"id": "C07_T11_server_history", "theorem": "Iora.C07.T11_server_settings_in_force", "kind": "proved",
+     "statement": "forall histories of HttpServer enableTls/start/stop: a started server runs with the settings enableTls accepted last; once an enableTls is "
+                  "in force the server never serves clear text, also after restarts"},
+    {"id": "C07_T11_enable_effect", "theorem": "Iora.C07.T11_enableTls_effect", "kind": "proved",
+     "statement": "an accepted enableTls stores its argument and is accepted only on a server that is not started; start/stop never drop the stored settings"},
+    {"id": "C07_T5_http_server_cert", "theorem": "Iora.C07.T5_http_server_presents_cert", "kind": "proved",
+     "statement": "HttpServer: whenever enableTls(h) leads to a TLS listener its server context has loaded the certificate and key h names "
+                  "(consumes httpServerMap.certFile/keyFile and both enableTls preconditions)"},
+    {"id": "C07_T12_service", "theorem": "Iora.C07.T12_service_requested_tls_never_plain", "kind": "proved",
+     "statement": "IoraService::applyConfig: forall combinations of the optional server.tls settings and file states: certificate or key named, or client "
+                  "certificates required => the webhook server is a TLS listener or the start is refused, never a clear-text listener"},
     {"id": "C07_H_consistent", "theorem": "Iora.C07.assumptions_consistent", "kind": "proved",
      "statement": "the hypotheses about OpenSSL (Handshake.Assumed) are satisfiable: the executable reference is an instance"},
 ]
 ANCHOR_FILES = ["include/iora/network/detail/tcp_engine.hpp", "include/iora/network/http_client.hpp",
-                "include/iora/network/http_server.hpp", "include/iora/network/transport_types.hpp"]
+                "include/iora/network/http_server.hpp", "include/iora/network/transport_types.hpp", "include/iora/network/detail/udp_engine.hpp", "include/iora/iora.hpp"]
 FINDING_HTTP_NAME = "http:verify=1,url=name,scert=wrongname"
 
 CEILS = ["10", "11", "12", "13"]
@@ -97,15 +127,15 @@ MINS = ["0", "769", "770", "771", "772"]
 
 # ------------------------------------------------------------------ cell constructors
 def cli(api="async", verify=1, trust="right", scert="valid", ceil="13", peer="tls", target="name", minv="0", et=1, batch=0,
-        enabled=1, defmode="client", req="client", ciphers=None):
+        enabled=1, defmode="client", req="client", ciphers=None, other=0, sys=None):
     return "cli %s %d %s %s %s %s %s %s %d %d %d %s %s" % (api, verify, trust, scert, ceil, peer, target, minv, et, batch, enabled, defmode, req) + \
-           (" ciphers=%s" % ciphers if ciphers else "")
+           (" ciphers=%s" % ciphers if ciphers else "") + (" other=1" if other else "") + (" sys=%s" % sys if sys else "")
 
 
 def srv(verify=0, trust="none", own="valid", ccert="none", ceil="13", peer="tls", minv="0", et=1, batch=0, enabled=1, defmode="server", req="server",
-        greet=0, ciphers=None):
+        greet=0, ciphers=None, other=0, sys=None):
     return "srv %d %s %s %s %s %s %s %d %d %d %s %s" % (verify, trust, own, ccert, ceil, peer, minv, et, batch, enabled, defmode, req) + \
-           (" greet=1" if greet else "") + (" ciphers=%s" % ciphers if ciphers else "")
+           (" greet=1" if greet else "") + (" ciphers=%s" % ciphers if ciphers else "") + (" other=1" if other else "") + (" sys=%s" % sys if sys else "")
 
 
 def hurl(scheme="https", form="ipport", verify=1, peer="dual"):
@@ -128,8 +158,35 @@ def http(verify=1, ca="right", sys="empty", scert="valid", url="name", ceil="13"
     return "http %d %s %s %s %s %s %s" % (verify, ca, sys, scert, url, ceil, peer)
 
 
-def hsrv(require=0, ca="none", own="valid", ccert="none", ceil="13", peer="tls"):
-    return "hsrv %d %s %s %s %s %s" % (require, ca, own, ccert, ceil, peer)
+def hsrv(require=0, ca="none", own="valid", ccert="none", ceil="13", peer="tls", sys=None):
+    return "hsrv %d %s %s %s %s %s" % (require, ca, own, ccert, ceil, peer) + (" sys=%s" % sys if sys else "")
+
+
+def hslife(seq, peer):
+    return "hslife %s %s" % ("-".join(seq), peer)
+
+
+def hinit(bad, url):
+    return "hinit %s %s" % (bad, url)
+
+
+def udp(op, req):
+    return "udp %s %s" % (op, req)
+
+
+HS_SEQS = ["S", "ES", "SE", "ESXS", "SXES", "SEXS", "ESE", "EES", "SXS", "ESX", "EXS", "SEE", "SEXES", "ESXSE"]
+
+
+def random_hs_seq(rng):
+    """a call history of one HttpServer: never start() a started server (the second listener could not bind the same port)"""
+    out, started = [], False
+    for _ in range(rng.range(2, 7)):
+        o = rng.choice(["E", "X"] if started else ["E", "S", "S", "X"])
+        started = (o == "S") or (started and o != "X")
+        out.append(o)
+    if not started and rng.chance(3, 4):
+        out.append("S")
+    return "".join(out)
 
 
 def case(cat, op, **kw):
@@ -181,11 +238,26 @@ def gen_cases(ctx, rng):
             for verify in (0, 1):
                 out.append(case("cli-trustform" + tag, cli(api=api, verify=verify, trust=trust, et=et, batch=batch)))
         # request mode x enabled x defaultMode (F18: TLS requested without the matching context)
+        # … x which contexts the engine holds: `other=1` = the SERVER context exists as well (wrong-role requests: TlsMode::Server handed to connect)
         for req in ("none", "server", "client"):
             for enabled in (0, 1):
                 for defmode in ("none", "server", "client"):
-                    out.append(case("mode-connect" + tag, cli(api=api, verify=0, trust="none", peer="dual", target="ip", enabled=enabled, defmode=defmode, req=req,
-                                                              et=et, batch=batch)))
+                    for other in (0, 1):
+                        out.append(case("mode-connect" + ("/dual" if other else "") + tag,
+                                        cli(api=api, verify=0, trust="none", peer="dual", target="ip", enabled=enabled, defmode=defmode, req=req,
+                                            et=et, batch=batch, other=other)))
+        # a non-empty SYSTEM store next to the configured anchor: the store is a set, and only a client without caFile/caPath may hold `default`
+        for verify in (0, 1):
+            for trust in TRUSTS:
+                for sys in ("right", "wrong"):
+                    for scert in ("valid", "self"):
+                        out.append(case("cli-sys" + tag, cli(api=api, verify=verify, trust=trust, scert=scert, sys=sys, et=et, batch=batch)))
+        # verifyDepth other than the default, and iora PRESENTING a client certificate (client-certificate steps of the client block)
+        for depth in ("1", "2", "9"):
+            out.append(case("cli-depth" + tag, cli(api=api, et=et, batch=batch) + " depth=" + depth))
+        for own in ("cvalid", "cuntrusted"):
+            for verify in (0, 1):
+                out.append(case("cli-owncert" + tag, cli(api=api, verify=verify, trust="right" if verify else "none", et=et, batch=batch) + " owncert=" + own))
         return out
 
     def server_matrix(et, batch, tag):
@@ -227,7 +299,11 @@ def gen_cases(ctx, rng):
         for req in ("none", "server", "client"):
             for enabled in (0, 1):
                 for defmode in ("none", "server"):
-                    out.append(case("srv-greet" + tag, srv(peer="plainread", enabled=enabled, defmode=defmode, req=req, greet=1, et=et, batch=batch)))
+                    for other in (0, 1):
+                        if other and quick and req != "client":
+                            continue          # quick: on a dual-role engine only the wrong-role request (thorough: all)
+                        out.append(case("srv-greet" + ("/dual" if other else "") + tag,
+                                        srv(peer="plainread", enabled=enabled, defmode=defmode, req=req, greet=1, et=et, batch=batch, other=other)))
         for trust in ("path", "badfile", "missing"):
             for verify in (0, 1):
                 out.append(case("srv-trustform" + tag, srv(verify=verify, trust=trust, ccert="cvalid", et=et, batch=batch)))
@@ -237,7 +313,18 @@ def gen_cases(ctx, rng):
             for enabled in (0, 1):
                 for defmode in ("none", "server", "client"):
                     for peer in ("plain", "tls"):
-                        out.append(case("mode-listen" + tag, srv(peer=peer, enabled=enabled, defmode=defmode, req=req, et=et, batch=batch)))
+                        for other in (0, 1):
+                            if other and quick and (req == "none" or peer == "tls"):
+                                continue      # quick: dual-role engine x TLS request x plaintext peer (thorough: all)
+                            out.append(case("mode-listen" + ("/dual" if other else "") + tag,
+                                            srv(peer=peer, enabled=enabled, defmode=defmode, req=req, et=et, batch=batch, other=other)))
+        # mTLS server with a NON-EMPTY system store: a client certificate of a CA that only the system store knows must be rejected
+        for trust in ("right", "wrong"):
+            for ccert in ("cvalid", "cuntrusted", "none"):
+                for sys in ("right", "wrong"):
+                    out.append(case("srv-sys" + tag, srv(verify=1, trust=trust, ccert=ccert, sys=sys, et=et, batch=batch)))
+        for depth in ("1", "2", "9"):
+            out.append(case("srv-depth" + tag, srv(verify=1, trust="right", ccert="cvalid", et=et, batch=batch) + " depth=" + depth))
         return out
 
     for api, et, batch in variants:
@@ -302,6 +389,25 @@ def gen_cases(ctx, rng):
         rng.shuffle(hs)
         hs = hs[:10]
     cs += [case("hsrv", o) for o in hs_fixed + hs]
+    cs += [case("hsrv-sys", hsrv(require=1, ca=ca, ccert=cc, sys=sy)) for ca in ("right", "wrong") for cc in ("cvalid", "cuntrusted") for sy in ("right", "wrong")]
+    # ---- HttpServer: call histories (enableTls before / after start, restarts), then one request by a TLS and by a plaintext client
+    fixed_seqs = list(HS_SEQS)
+    rnd_seqs = [q for q in dict.fromkeys(random_hs_seq(rng) for _ in range(5 if quick else 120)) if q not in fixed_seqs]
+    for q in fixed_seqs + rnd_seqs:
+        for peer in ("tls", "plain"):
+            if quick and peer == "tls" and (q in rnd_seqs or q in ("ESE", "EES", "SEE", "ESX", "EXS", "SXS")):
+                continue                      # quick: the plaintext client is the one that exposes a clear listener
+            cs.append(case("hsrv-history", hslife(q, peer)))
+    # ---- HttpClient: the first initialisation FAILS (unloadable caFile), the settings are corrected, next request by name / by address
+    for bad in ("badfile", "missing"):
+        for url in ("name", "ip"):
+            cs.append(case("http-init-failure", hinit(bad, url)))
+    hc_bad = [http(verify=v, ca=bad, url=u) for v in (0, 1) for bad in ("badfile", "missing") for u in ("name", "ip")]
+    cs += [case("http-badca", o) for o in hc_bad]
+    # ---- UdpEngine: a TLS mode on the datagram transport
+    for op in ("connect", "listen"):
+        for req in ("none", "server", "client"):
+            cs.append(case("udp", udp(op, req)))
     return cs
 
 
@@ -334,6 +440,11 @@ def parse_line(l):
 def cell_of(op):
     d = _cell_of(op)
     d["opts"] = dict(tok.partition("=")[::2] for tok in op.split() if "=" in tok)
+    if d["kind"] == "cli":
+        # the anchor a Transport client is configured with: its caFile, or - with neither caFile nor caPath - the system store (default paths)
+        d["cafile"] = d["trust"]
+        if d["trust"] == "none" and d["opts"].get("sys") in ("right", "wrong"):
+            d["trust"] = d["opts"]["sys"]
     return d
 
 
@@ -358,6 +469,12 @@ def _cell_of(op):
         return dict(kind="hreconf", v1=t[1] == "1", trigger=t[2], v2=t[3] == "1", req="client")
     if t[0] == "hsrv":
         return dict(kind="hsrv", verify=t[1] == "1", trust=t[2], own=t[3], ccert=t[4], ceil=t[5], peer=t[6], req="server")
+    if t[0] == "hslife":
+        return dict(kind="hslife", seq=t[1], peer=t[2], req="history", verify=False, ccert="none", trust="none")
+    if t[0] == "hinit":
+        return dict(kind="hinit", bad=t[1], url=t[2], req="client")
+    if t[0] == "udp":
+        return dict(kind="udp", op=t[1], req=t[2], verify=False)
     return dict(kind=t[0])
 
 
@@ -375,6 +492,17 @@ def monitor(op, impl):
             bad.append("no-downgrade: an https request was carried by a cached PLAIN connection to the same host:port (requests %s then %s, %s connection(s))"
                        % (c["first"], c["second"], o.get("conns")))
         return bad, None
+    if c["kind"] == "hinit":
+        d = parse_line(impl)
+        if d.get("set2") == "throw":
+            bad.append("init-failure: after a FAILED first initialisation (unloadable caFile) HttpClient kept a dead transport: setTlsConfig with corrected "
+                       "settings is refused, every later request fails, and a request to a host NAME dereferences the DNS client that was never created "
+                       "(fails closed - no byte in clear - but the client is bricked; repaired by FC07e)")
+        if d["diag"].get("cleartext") == "1":
+            bad.append("no-downgrade: an https request of HttpClient put application bytes on the wire in clear text")
+        if d.get("set2") == "ok" and d.get("r1") == "200":
+            bad.append("client-auth: an https request succeeded although the configured caFile cannot be loaded")
+        return bad, None
     if c["kind"] == "hreconf":
         if o.get("set2") == "ok" and c["v2"] and o.get("r2") == "200":
             bad.append("client-auth: setTlsConfig{verifyPeer=true} was accepted, yet the next https request returned 200 from a server with a SELF-SIGNED "
@@ -387,6 +515,16 @@ def monitor(op, impl):
     anon_enabled = c["opts"].get("ciphers") == "seclevel0" and c.get("peer") == "anon"
     connected, appdata, clear = o.get("connected") == "1", o.get("appdata") == "1", o.get("cleartext") == "1"
     finding = None
+    if c["kind"] == "hslife":
+        accepted = "ok" in o.get("en", "-").split(",")
+        if accepted and (o.get("plan") == "plain" or clear):
+            bad.append("no-downgrade: HttpServer::enableTls was ACCEPTED (calls %s, results %s) yet the server answered the next request in clear text "
+                       "(plan=%s, %s client, served=%s): TLS was requested and is not in force" % (c["seq"], o.get("en"), o.get("plan"), c["peer"], o.get("appdata")))
+        if accepted and o.get("plan", "").startswith("tls") and (connected or appdata) and o.get("version") not in ("1.2", "1.3"):
+            bad.append("version: HttpServer with enableTls in force served a request at protocol version %s" % o.get("version"))
+        if appdata and not connected:
+            bad.append("announce: application data exchanged on a session that was never announced")
+        return bad, None
     hs = re.search(r"hs=\(verify=([^,]*),depth=(-?\d+),hostflags=(\d+),host=([^)]*)\)", o.get("plan", ""))
     if hs:
         hv, hd, hf, hh = hs.group(1), int(hs.group(2)), int(hs.group(3)), hs.group(4)
@@ -399,8 +537,16 @@ def monitor(op, impl):
             bad.append("verify-mode: client certificates are required but the SSL object entered its handshake with verify mode %s" % hv)
         if c.get("verify") and c["kind"] == "cli" and c.get("target") == "name" and hh != "localhost":
             bad.append("name-binding: connecting by name with verification on, but the host bound on the SSL object at handshake time is %r" % hh)
-        if hd != 4:
-            bad.append("verify-depth: the SSL object entered its handshake with verify depth %d (configured: 4)" % hd)
+        tm = re.search(r"trust=([a-z+]+),", o.get("plan", ""))
+        tset = set(tm.group(1).split("+")) if tm else set()
+        if "default" in tset and c["kind"] in ("srv", "hsrv"):
+            bad.append("trust-store: the server context's verification store ALSO holds the system roots (trust=%s): client certificates of any publicly "
+                       "trusted CA would be admitted next to the configured one" % tm.group(1))
+        if "default" in tset and c["kind"] in ("cli", "http") and c.get("verify") and (c.get("cafile", c.get("trust")) in ("right", "wrong")):
+            bad.append("trust-store: a client configured with its own CA file ALSO trusts the system roots (trust=%s)" % tm.group(1))
+        want_depth = int(c["opts"].get("depth", "4"))
+        if hd != want_depth:
+            bad.append("verify-depth: the SSL object entered its handshake with verify depth %d (configured: %d)" % (hd, want_depth))
     if c["req"] != "none" and clear:
         bad.append("no-downgrade: a session requested with TLS carried application bytes in clear text (plan=%s)" % o.get("plan"))
     if c["req"] != "none" and o.get("plan") == "plain":
@@ -412,6 +558,11 @@ def monitor(op, impl):
             bad.append("version: ServerHello on the wire announces %s (< TLS 1.2)" % o["diag"].get("wirever"))
     if appdata and not connected:
         bad.append("announce: application data exchanged on a session that was never announced")
+    if c["req"] != "none" and c["kind"] in ("cli", "srv") and o["diag"].get("rxodd") == "1" and c.get("peer") in ("tls", "dual", "plain", "plainread"):
+        bad.append("raw-delivery: on a session requested with TLS, onData received %s byte(s) that the peer never sent as application data (bytes taken "
+                   "off the socket without passing SSL_read: ciphertext / handshake records, or a plaintext peer's bytes)" % o["diag"].get("rx"))
+    if c["req"] != "none" and c["kind"] in ("cli", "srv") and int(o["diag"].get("rx", "0") or 0) > 0 and not connected:
+        bad.append("early-delivery: onData fired (%s byte(s)) on a session requested with TLS whose handshake never completed" % o["diag"].get("rx"))
     if c["kind"] in ("cli", "http", "hurl") and c["req"] == "client" and c["verify"] and (connected or appdata) and not anon_enabled:
         f = CERT_FACTS[c["scert"]]
         why = []
@@ -476,8 +627,18 @@ def replay(ctx):
     if not hb or not ops:
         print("replay: nothing to run (kind=%s)" % obj.get("kind"))
         return 1 if ctx.violations else 0
-    res = ctx.lockstep("tls", hb, [case("replay", o) for o in ops], timeout=600, impl_env={"C07_WORK": os.path.join(ctx.work, "certs")})
     still = False
+    # `svc` cells are decided on the model of the condition translated from iora.hpp (no harness counterpart)
+    svc_ops = [o for o in ops if o.startswith("svc ")]
+    ops = [o for o in ops if not o.startswith("svc ")]
+    if svc_ops:
+        out = ctx.run_lines(ctx.model_argv("tls"), svc_ops, timeout=60)[0]
+        for o, l in zip(svc_ops, out):
+            t_ = o.split()
+            bad = "1" in (t_[1], t_[2], t_[4]) and l == "plan=plain"
+            print("op    %s\n model(translated condition) %s%s" % (o, l, "\nPROPERTY FAILS: TLS requested, webhook server plain" if bad else ""))
+            still = still or bad
+    res = ctx.lockstep("tls", hb, [case("replay", o) for o in ops], timeout=600, impl_env={"C07_WORK": os.path.join(ctx.work, "certs")}) if ops else []
     for c, impl, model in res:
         fails, finding = monitor(c["ops"][0], impl[0])
         print("op    %s\n impl  %s\n model %s" % (c["ops"][0], impl[0][:300], model[0][:300]))
@@ -502,12 +663,16 @@ def run(ctx: Ctx):
     if ok_build:
         ctx.audit(MODULES, OBLIGATIONS)
         if not quick:
-            ctx.leanchecker(MODULES + ["IoraModel.Lemmas.TlsPlan", "IoraModel.Lemmas.TlsMatrixCli", "IoraModel.Lemmas.TlsMatrixSrv", "IoraModel.Lemmas.TlsMatrixHttp", "IoraModel.Model.TlsPlan",
+            ctx.leanchecker(MODULES + ["IoraModel.Lemmas.TlsPlan", "IoraModel.Lemmas.TlsMatrixCli", "IoraModel.Lemmas.TlsMatrixSrv", "IoraModel.Lemmas.TlsMatrixHttp", "IoraModel.Model.TlsPlan", "IoraModel.Model.TlsLife", "IoraModel.Lemmas.TlsLife",
                                        "IoraModel.Gen.TlsCalls", "IoraModel.Model.TlsTypes"])
     else:
         ctx.cov["obligations"] = len(OBLIGATIONS)
     hb = ctx.build_harness("harness/c07_tls.cpp", sanitize=True, opt="-O0")
     dist, outcomes = {}, {"connected": 0, "refused": 0, "handshake-failed": 0, "plain": 0}
+    branches = {}
+
+    def bump(k):
+        branches[k] = branches.get(k, 0) + 1
     finding_cells = []
     margv = None
     try:
@@ -535,11 +700,38 @@ def run(ctx: Ctx):
         for c, impl, model in res:
             op, il, ml = c["ops"][0], impl[0], model[0]
             dist[c["cat"]] = dist.get(c["cat"], 0) + 1
-            o = parse_line(il) if il.startswith("plan=") else {}
+            o = parse_line(il) if il.startswith("plan=") or il.startswith("r1=") else {}
             plan = o.get("plan", "")
             outcomes["connected" if o.get("connected") == "1" and plan.startswith("tls") else "plain" if plan == "plain" else
                      "refused" if plan.startswith("refuse") else "handshake-failed"] += 1
             ctx.count_case(op, nontrivial=plan.startswith("tls") or plan.startswith("refuse"))
+            cc = cell_of(op)
+            if plan.startswith("refuse"):
+                bump("refused-at:" + plan[7:-1])
+            elif plan.startswith("tls("):
+                pm = re.match(r"tls\(role=(\w+),verify=([A-Z_+]+),min=(\d+),trust=([a-z+]+),cert=(\d),host=([^,]*),sni=([^,]*),hs=(-|\()", plan)
+                if pm:
+                    bump("ctx-role:" + pm.group(1)); bump("ctx-verify:" + pm.group(2)); bump("ctx-trust-set:" + pm.group(4)); bump("ctx-min:" + pm.group(3))
+                    bump("host-bound:" + ("yes" if pm.group(6) != "-" else "no")); bump("sni:" + ("yes" if pm.group(7) != "-" else "no"))
+                    bump("handshake-driven:" + ("no" if pm.group(8) == "-" else "yes"))
+            elif plan:
+                bump("plan:" + plan)
+            if cc.get("req") in ("server", "client") and cc["kind"] in ("cli", "srv", "udp"):
+                wrong = (cc["kind"] == "cli" and cc["req"] == "server") or (cc["kind"] == "srv" and cc["req"] == "client")
+                bump("request-role:" + ("wrong" if wrong else "right") + ("/other-context-exists" if cc["opts"].get("other") == "1" else "") +
+                     ("/udp" if cc["kind"] == "udp" else ""))
+            if cc["opts"].get("sys") in ("right", "wrong") or cc.get("sys") in ("right", "wrong"):
+                bump("system-store:non-empty/" + cc["kind"])
+            if cc["kind"] == "hslife":
+                for e in o.get("en", "-").split(","):
+                    bump("enableTls:" + e)
+                bump("server-history:" + ("restart" if cc["seq"].count("S") > 1 else "enable-after-start" if "S-E" in cc["seq"] else "simple"))
+            if cc["kind"] == "hinit":
+                bump("http-init-failure:set2=" + o.get("set2", "?") + ",r2=" + o.get("r2", "?"))
+            if o.get("cleartext") == "1":
+                bump("cleartext-on-wire:" + ("requested-plain" if cc.get("req") in ("none", "history") or plan == "plain" else "REQUESTED-TLS"))
+            if o.get("appdata") == "1":
+                bump("delivered-to-application:" + ("after-announce" if o.get("connected") == "1" else "BEFORE-ANNOUNCE"))
             if len(ctx.cov["samples"]) < 6 and rng.chance(1, 120):
                 ctx.sample({"op": op, "impl": il[:300], "model": ml})
             fails, finding = monitor(op, il)
@@ -575,6 +767,20 @@ def run(ctx: Ctx):
                                   % (c["ops"][0], head(il2), ml),
                                   {"broken": {"correspondence": "tls lockstep (harness/c07_tls.cpp vs Model/TlsPlan.lean + Gen/TlsCalls.lean)", "detail": il2},
                                    "ops": c["ops"], "observed": [il, il2], "expected_by_model": [ml]}, found_input=False)
+        # ---- IoraService::applyConfig (application glue): the 16 combinations of the optional server.tls settings, decided on the condition the
+        # translator took from iora.hpp (the service singleton is not run inside the harness; executed witness: corpus/C07/FC07f-*.probe.cpp)
+        if margv:
+            svc_lines = ["svc %d %d %d %d" % (a, b, c_, d) for a in (1, 0) for b in (1, 0) for c_ in (0, 1) for d in (0, 1)]   # the executed witness first
+            svc_out = ctx.run_lines(margv, svc_lines, timeout=60)[0]
+            for l, o_ in zip(svc_lines, svc_out):
+                t_ = l.split()
+                dist["service-config(model of the translated condition)"] = dist.get("service-config(model of the translated condition)", 0) + 1
+                bump("service-tls:" + ("requested" if "1" in (t_[1], t_[2], t_[4]) else "not-requested") + "->" + o_.partition("(")[0].replace("plan=", ""))
+                if "1" in (t_[1], t_[2], t_[4]) and o_ == "plan=plain":
+                    ctx.violation("property", "no-downgrade: IoraService with server.tls certFile=%s keyFile=%s caFile=%s requireClientCert=%s starts its webhook server in "
+                                  "CLEAR TEXT although TLS was requested (decided on the `hasTls` condition translated from iora.hpp; executed witness: "
+                                  "corpus/C07/FC07f-service-cert-key-without-ca.probe.cpp)" % tuple(t_[1:5]),
+                                  {"ops": [l], "observed": [o_], "layer": "model of the translated condition"}, found_input=True)
         # ---- recorded finding F20-http: replay its witness; it must still reproduce AND be listed
         wit = http(verify=1, ca="right", sys="empty", scert="wrongname", url="name")
         wl, _, _ = ctx.run_lines([hb], [wit], timeout=300, env=env)
@@ -600,6 +806,9 @@ def run(ctx: Ctx):
     ctx.extra.setdefault("timing_mismatches_classified_as_machinery", [])
     if ctx.extra["cells_skipped_default_ports_busy"]:
         ctx.notes.append("%d no-port URL cell(s) could not bind 127.0.0.1:443/80 and were skipped" % ctx.extra["cells_skipped_default_ports_busy"])
+    # branch / kind counters MEASURED on the implementation's own lines of this run (which decision branches the correspondence run reached)
+    for k, v in sorted(branches.items()):
+        dist["branch:" + k] = v
     ctx.extra["input_distribution"] = dist
     ctx.extra["outcome_distribution"] = outcomes
     ctx.extra["repo_tree_sha"] = ctx.repo_tree_sha(ANCHOR_FILES)
@@ -610,8 +819,12 @@ def run(ctx: Ctx):
         "X.509 path validation, signature checks and the record layer are OpenSSL's: they are the parameter H with the hypotheses Handshake.Assumed, not theorems "
         "(the exhaustive matrix correspondence checks them against the installed library)",
         "T4 for the HttpClient path at full strength (refuted: F20-http); only the unresolved-name case is proved",
-        "the session machine of T7/T8 consumes 13 translator facts (each load-bearing: flipping any one breaks a theorem) and is exercised by the early-send / "
-        "greeting cells; it is not run step by step against the engine",
+        "the session machine of T7/T8 (send side) and its receive side (T7_recv: readAvail + both call sites) consume 16 translator facts; the driver RUNS the "
+        "machine over the schedule of every TLS cell (greeting/early send, bytes arriving during the handshake, handshake result, send) to print the "
+        "cleartext column, and the harness reports every byte onData saw (rx / rxodd); the engine itself is not single-stepped event by event",
+        "engine restart (TcpEngine::start after stop, freeTls), closeNow/shutdownDrain, the ALPN select callback, HttpClientPool::setTlsConfig and "
+        "IoraService::applyConfig (server.tls glue in iora.hpp) are outside the model",
+        "writePendingSkipsHandshake is consumed by the machine but no theorem depends on its value (it can only make the machine quieter)",
         "TlsConfig.ciphers strings that enable anonymous key exchange are outside the property (T3_client_authenticated carries the hypothesis; the `anon` cells "
         "document that SSL_VERIFY_PEER is void for them on a client, while a verifyPeer SERVER still fails closed)",
         "URL forms other than scheme case / host form / default port (userinfo, IPv6 literal, trailing-dot host) are monitored (thorough tier) but not modelled",
